@@ -15,7 +15,7 @@ int a[4], a2[4]; char ca[8]; double da[2]; int m2[2][3];
 struct S { int m; char n; double o; int arr[2]; struct S *next; } st, st2, *ps; union U { int m; double o; } un, *pu;
 typedef struct S TS; TS ts; TS *pts;
 enum E { K1, K2 = 5 } e; enum E e2;
-int f0(void); int f1(int); int f2(int, double); int fv(int, ...); void fvoid(void); double fd(double); int fp1(int *); int fvp(void *); int fcc(const char *); int fs(struct S);
+int f0(void); int f1(int); int g2(int, double); int fv(int, ...); void fvoid(void); double fd(double); int fp1(int *); int fvp(void *); int fcc(const char *); int fs(struct S);
 int (*fp)(int); void (*fpv)(void); int *fpr(void); struct S fst(void);
 """
 BIN = ["*", "/", "%", "+", "-", "<<", ">>", "<", ">", "<=", ">=", "==", "!=", "&", "^", "|", "&&", "||"]
@@ -34,7 +34,7 @@ def tests():
             out.append(("asg%s:%s,%s" % (op, x, y), "%s %s %s2;" % (x, op, y)))
     for x in names + ["ti", "tc", "td", "e", "ci", "vi"]:
         for u in ["+%s;", "-%s;", "!%s;", "~%s;", "%s++;", "%s--;", "++%s;", "--%s;", "sizeof %s;", "sizeof(%s);", "(void)%s;", "&%s;", "%s ? 1 : 2;", "i ? %s : 0;", "a[%s];", "p + %s;", "p - %s;",
-                  "p[%s];", "%s[a];", "f1(%s);", "f2(%s, %s);", "fd(%s);", "fv(1, %s);", "(int)%s;", "(double)%s;", "(char)%s;", "(long)%s;", "(_Bool)%s;", "(unsigned char)%s;", "i = %s;", "d = %s;", "c = %s;",
+                  "p[%s];", "%s[a];", "f1(%s);", "g2(%s, %s);", "fd(%s);", "fv(1, %s);", "(int)%s;", "(double)%s;", "(char)%s;", "(long)%s;", "(_Bool)%s;", "(unsigned char)%s;", "i = %s;", "d = %s;", "c = %s;",
                   "b = %s;", "e = %s;", "ti = %s;", "td = %s;", "if (%s) ;", "while (%s) break;", "for (; %s; ) break;", "do ; while (%s);", "switch (%s) { default: ; }", "%s && p;", "p || %s;", "!p && %s;",
                   "%s == K2;", "%s + K1;", "%s , 1;", "(%s);", "{ int loc = %s; loc; }", "{ double loc = %s; loc; }", "{ char loc = %s; loc; }", "{ _Bool loc = %s; loc; }", "{ T3 loc = %s; loc; }",
                   "{ long loc[2] = { %s, %s }; loc; }", "{ struct S loc = { %s, 'x', 1.0 }; loc; }", "st.m = %s;", "ps->o = %s;", "a[1] = %s;", "*p = %s;", "*pd = %s;", "un.m = %s;", "m2[1][2] = %s;", "st.arr[0] = %s;"]:
@@ -60,11 +60,11 @@ def tests():
         "e = K1;", "e = K2;", "e = e2;", "e == K1;", "e + 1;", "i = e;", "e = i;", "e = 1;", "K1 + K2;", "i = K2 * 2;", "switch (e) { case K1: break; case K2: break; }", "a[K1];", "{ enum E le = K2; le; }", "{ int li = K1; li; }", "e ? K1 : K2;", "(enum E)i;", "(int)e;",
     ]
     call_stmts = [
-        "f0();", "f1(1);", "f1(i);", "f1(c);", "f1(d);", "f1('a');", "f1(K1);", "f1(f0());", "f1(f1(1));", "f2(1, 2.0);", "f2(i, i);", "f2(c, f);", "fv(1);", "fv(1, 2);", "fv(1, 2.0, \"s\", p);", "fv(i, c, s, f);", "fvoid();", "fd(1);", "fd(f);", "fd(fd(d));",
+        "f0();", "f1(1);", "f1(i);", "f1(c);", "f1(d);", "f1('a');", "f1(K1);", "f1(f0());", "f1(f1(1));", "g2(1, 2.0);", "g2(i, i);", "g2(c, f);", "fv(1);", "fv(1, 2);", "fv(1, 2.0, \"s\", p);", "fv(i, c, s, f);", "fvoid();", "fd(1);", "fd(f);", "fd(fd(d));",
         "fp1(p);", "fp1(a);", "fp1(&i);", "fp1(0);", "fp1(vp);", "fp1(tp);", "fp1(&st.m);", "fp1(st.arr);", "fvp(p);", "fvp(pc);", "fvp(vp);", "fvp(0);", "fvp(&st);", "fvp(ps);", "fvp(a);", "fvp(\"s\");", "fcc(pc);", "fcc(ccp);", "fcc(\"lit\");", "fcc(ca);", "fcc(0);",
         "i = f0();", "d = fd(1.0);", "i = f1(2) + f0();", "p = fpr();", "*fpr() = 1;", "fpr()[0];", "fp = f1;", "fp = &f1;", "fp(1);", "(*fp)(1);", "(**fp)(1);", "i = fp(2);", "fpv = fvoid;", "fpv();", "(*fpv)();", "fp == f1;", "fp != 0;", "fp ? 1 : 0;", "!fp;", "fp = 0;",
-        "(void)f0();", "(void)fvoid();", "f0() + 1;", "f0() ? 1 : 2;", "if (f0()) ;", "f1(i ? 1 : 2);", "f1((i, 2));", "f1(sizeof(int));", "f2(f0(), fd(1));", "{ int (*lfp)(int) = f1; lfp(1); }", "{ int (*lfp)(int) = 0; lfp; }", "{ int lr = f1(1); lr; }",
-        "{ double lr = fd(2); lr; }", "{ int *lr = fpr(); lr; }", "{ struct S lr = fst(); lr; }", "sizeof f0();", "sizeof(f1(1));", "fst();", "fst().arr[0];", "f1(st.m);", "f1(ps->arr[1]);", "f2(a[0], da[1]);", "f1(*p);", "f1(p[1]);", "f1(un.m);", "f1(e);", "f1(ti);", "fd(td);", "f1(tc);",
+        "(void)f0();", "(void)fvoid();", "f0() + 1;", "f0() ? 1 : 2;", "if (f0()) ;", "f1(i ? 1 : 2);", "f1((i, 2));", "f1(sizeof(int));", "g2(f0(), fd(1));", "{ int (*lfp)(int) = f1; lfp(1); }", "{ int (*lfp)(int) = 0; lfp; }", "{ int lr = f1(1); lr; }",
+        "{ double lr = fd(2); lr; }", "{ int *lr = fpr(); lr; }", "{ struct S lr = fst(); lr; }", "sizeof f0();", "sizeof(f1(1));", "fst();", "fst().arr[0];", "f1(st.m);", "f1(ps->arr[1]);", "g2(a[0], da[1]);", "f1(*p);", "f1(p[1]);", "f1(un.m);", "f1(e);", "f1(ti);", "fd(td);", "f1(tc);",
     ]
     misc = ["i = i;", "1;", "1 + 2;", "1.5 + 2;", "'a' + 1;", "\"s\";", "i = 1, d = 2;", "i = d = c;", "i += d;", "d /= i;", "c = c + 1;", "b = i && d;", "b = !d;", "i = b + b;", "i = (c, d, i);", "i = sizeof(int) + sizeof i;", "i = _Alignof(double);",
             "ul = sizeof(i);", "i = 1u;", "l = 1ull;", "d = 1.f;", "f = 1.0L;", "c = 65;", "i = 'a';", "i = L'a';", "c = \"s\"[0];", "i = -1;", "u = -1;", "i = ~0u;", "l = 1 << 3;", "ull = 1ull << 40;", "i = 7 % 3;", "i = 7 / 2;", "d = 7 / 2.0;", "i = (1, 2);",
@@ -77,6 +77,43 @@ def tests():
     for sgroup, name in ((ptr_stmts, "ptr"), (struct_stmts, "struct"), (call_stmts, "call"), (misc, "misc")):
         for s in sgroup:
             out.append(("%s:%s" % (name, s), s))
+    # ---- composition: every producer of a value class inside every consumer that needs that class (a wrong RESULT TYPE of an accepted
+    # operation shows one node later: seeded change C11-b gave `i + p` the type of `i`)
+    PROD = {
+        "iptr": ["p", "p + 1", "1 + p", "i + p", "p + i", "c + p", "ul + p", "e + p", "ti + p", "p - 1", "p - i", "p += 1", "p -= i", "p++", "p--", "++p", "--p", "&i", "&a[1]", "a", "a + 1", "1 + a", "i + a", "&*p", "(int *)vp",
+                 "i ? p : q", "i ? p : 0", "i ? 0 : p", "(p)", "(0, p)", "p = q", "fpr()", "st.arr", "&st.m", "tp", "tp + 1", "1 + tp", "*pp", "kp", "m2[1]", "*m2", "pp[0]", "&p[2]", "&a[0] + 1", "1 + &i", "(1 + p) + 1",
+                 "1 + (p + 1)", "i + (i + p)", "st.arr + 1", "1 + st.arr", "1 + fpr()", "(int *)0", "1 + (int *)vp", "&m2[1][0]", "1 + m2[1]", "ps->arr", "i + ps->arr", "&ps->m", "i + &ps->m"],
+        "int": ["i", "c", "i + c", "p - q", "sizeof i", "i < d", "!p", "p == q", "e", "K1", "i << 2", "~i", "st.m", "a[0]", "*p", "f0()", "i++", "i = 2", "(int)d", "i ? c : s", "b", "ti", "'a'", "i && d", "_Alignof(int)", "us % 3",
+                "un.m", "(i, c)", "*(1 + p)", "*(i + p)", "(1 + p)[0]", "(i + a)[1]", "1[p]", "*(c + a)", "(1 + p) - p", "(i + p) == p", "(1 + p) < q", "p - (1 + p)", "*(1 + st.arr)", "(1 + ps)->m", "(i + ps)->arr[0]", "ps[1].m",
+                "(*(1 + ps)).m", "ull", "sc", "-c", "+us", "c * c", "uc << 1", "i % ti", "(short)l", "sizeof(int) * 2", "e + K2", "ci", "vi", "i += 1", "c ? i : u", "u / 2", "l & 1", "b | 1", "ll ^ i"],
+        "flt": ["d", "f", "d + i", "i * 1.5", "fd(1)", "st.o", "(double)i", "-d", "td", "i ? d : 1", "*pd", "da[1]", "*(1 + pd)", "(1 + pd)[0]", "*(i + da)", "ld", "f * f", "f + i", "d / ull", "(float)d", "cd", "d = 1", "d += i",
+                "ps->o", "(1 + ps)->o", "un.o", "1.5f", "i ? f : d", "+f", "f - c"],
+        "struct": ["st", "*ps", "fst()", "i ? st : st2", "st = st2", "ts", "ps[0]", "*st.next", "(st)", "*(1 + ps)", "(1 + ps)[0]", "*(i + ps)", "*pts", "(0, st)", "*ps->next"],
+        "sptr": ["ps", "&st", "st.next", "ps + 1", "1 + ps", "i + ps", "c + ps", "pts", "i ? ps : 0", "ps->next", "(struct S *)vp", "&ps[1]", "ps++", "ps += 1", "1 + st.next", "&*ps", "(ps)", "ps = &st", "1 + &st", "i + pts",
+                 "1 + (1 + ps)", "(0, ps)", "i ? ps : pts"],
+        "cptr": ["pc", "ca", "pc + 1", "1 + pc", "i + pc", "i + ca", "1 + ca", "\"s\"", "1 + \"abc\"", "&ca[1]", "(char *)vp", "pc++", "i ? pc : ca", "&*pc", "1 + &ca[2]"],
+        "dptr": ["pd", "da", "1 + pd", "i + da", "pd + 1", "&d", "1 + &d", "&da[1]", "&st.o", "1 + &st.o", "pd++"],
+    }
+    CONS = {
+        "iptr": ["q = %s;", "*(%s);", "*(%s) = 1;", "(%s)[0];", "(%s)[i] = 2;", "fp1(%s);", "fvp(%s);", "(%s) == p;", "p != (%s);", "(%s) - p;", "q - (%s);", "(%s) < q;", "(%s) + 1;", "2 + (%s);", "(%s) - 1;", "vp = %s;", "cp = %s;",
+                 "!(%s);", "(%s) ? 1 : 2;", "i ? (%s) : q;", "(%s) && i;", "if (%s) ;", "*pp = %s;", "tp = %s;", "(void *)(%s);", "(long)(%s);", "{ int *lp = %s; lp; }", "{ const int *lc = %s; lc; }", "{ void *lv = %s; lv; }",
+                 "sizeof *(%s);", "&*(%s);", "&(%s)[1];", "i = *(%s) + 1;", "i = (%s)[1] * 2;", "f1(*(%s));", "f1((%s)[0]);", "RET:int *", "RET:void *", "RET:const int *", "RET:_Bool"],
+        "int": ["i = %s;", "a[%s];", "(%s) << 1;", "(%s) % 2;", "switch (%s) { default: ; }", "~(%s);", "p + (%s);", "(%s) + p;", "p - (%s);", "p[%s];", "f1(%s);", "c = %s;", "ul = %s;", "d = %s;", "b = %s;", "e = %s;", "(%s) & 1;",
+                "-(%s);", "!(%s);", "(%s) == 1;", "(%s) ? 1 : 2;", "if (%s) ;", "(%s) * 1.5;", "{ int li = %s; li; }", "{ long ll2 = %s; ll2; }", "fv(1, %s);", "i += %s;", "i <<= %s;", "(char)(%s);", "RET:int", "RET:long", "RET:double"],
+        "flt": ["d = %s;", "f = %s;", "i = %s;", "(%s) * 2;", "-(%s);", "(%s) < 1;", "fd(%s);", "g2(1, %s);", "!(%s);", "(%s) ? 1 : 2;", "(int)(%s);", "d += %s;", "(%s) + i;", "{ double lq = %s; lq; }", "if (%s) ;", "(%s) / d;", "RET:double", "RET:int", "RET:float"],
+        "struct": ["st2 = %s;", "(%s).m;", "(%s).o + 1;", "(%s).arr[0];", "fs(%s);", "ts = %s;", "*pts = %s;", "(void)(%s);", "sizeof(%s);", "{ struct S lz = %s; lz; }", "{ TS lz = %s; lz; }", "(%s).next->m;", "i = (%s).m;", "RET:struct S", "RET:TS"],
+        "sptr": ["pts = %s;", "(%s)->m;", "(%s)->o = 1;", "(*(%s)).n;", "(%s)[0].m;", "(%s)->next->m;", "(%s)->arr[1];", "fvp(%s);", "(%s) == ps;", "(%s) - ps;", "(%s) + 1;", "1 + (%s);", "vp = %s;", "st = *(%s);", "!(%s);", "(%s) ? 1 : 2;",
+                 "{ struct S *lz = %s; lz; }", "{ TS *lz = %s; lz; }", "st.next = %s;", "&(%s)->m;", "p = &(%s)->m;", "p = (%s)->arr;", "RET:struct S *", "RET:TS *", "RET:void *"],
+        "cptr": ["ccp = %s;", "*(%s);", "(%s)[0];", "fcc(%s);", "fvp(%s);", "(%s) == pc;", "(%s) - pc;", "(%s) + 1;", "cvp = %s;", "i = *(%s);", "c = (%s)[1];", "{ const char *lz = %s; lz; }", "!(%s);", "RET:const char *", "RET:const void *"],
+        "dptr": ["pd = %s;", "*(%s);", "(%s)[0];", "*(%s) = 1.5;", "d = *(%s) * 2;", "fvp(%s);", "(%s) == pd;", "(%s) - pd;", "vp = %s;", "{ double *lz = %s; lz; }", "fd(*(%s));", "RET:double *", "RET:void *"],
+    }
+    for cls in PROD:
+        for e in PROD[cls]:
+            for c in CONS[cls]:
+                if c.startswith("RET:"):
+                    out.append(("comp-ret:%s:%s" % (c[4:], e), ("RET", c[4:], e)))
+                else:
+                    out.append(("comp:%s:%s" % (c, e), c.replace("%s", e)))
     rets = [("int", "c"), ("int", "d"), ("int", "1"), ("double", "i"), ("double", "1"), ("char", "i"), ("_Bool", "p"), ("int *", "0"), ("int *", "p"), ("int *", "a"), ("int *", "vp"), ("void *", "p"), ("void *", "0"), ("const int *", "p"),
             ("struct S", "st"), ("struct S", "*ps"), ("TS", "st"), ("struct S *", "&st"), ("struct S *", "0"), ("enum E", "K1"), ("enum E", "i"), ("int", "K2"), ("T3", "ti"), ("T3", "c"), ("long", "ull"), ("float", "ld"), ("unsigned char", "i"),
             ("const char *", "\"s\""), ("char *", "ca"), ("int (*)(int)", None), ("TP", "p"), ("int *", "tp"), ("double", "td"), ("int", "f0()"), ("int", "i ? 1 : 2"), ("void", None)]
